@@ -199,6 +199,8 @@ def finish(prop, tier, seed, results, wall, known, no_evidence=False):
         "not_covered": lvl.get("not_covered", []),
     }
     cov.update(extra)
+    if tier == "thorough":
+        cov["rlimit_stability"] = {name: r.get("stability") for name, r in sorted(results.items()) if r.get("stability")}
     ev = {
         "property_id": prop,
         "tier": tier,
